@@ -1,8 +1,15 @@
 import OrsoVerif.Model.PyVal
 import OrsoVerif.Model.Cursor
-/-! Driver glue for C04: decode a history, run the cursor machine, encode the outputs. -/
+/-! Driver glue for C04: decode a frame description and a history, run the code machine
+(`Cursor.Impl`) and the spec machine (`Cursor.step`) side by side, encode the outputs. -/
 namespace Drv.C04
 open Cursor
+
+def decodeObs : String → Option Obs
+  | "pure" => some .pure
+  | "rows" => some .rows
+  | "nbytes" => some .nbytes
+  | _ => none
 
 def decodeOp : PyVal → Option (Op PyVal)
   | .list [.str "fetchone"] => some .fetchone
@@ -10,7 +17,8 @@ def decodeOp : PyVal → Option (Op PyVal)
   | .list [.str "fetchmany", .int k] => if k ≥ 0 then some (.fetchmany (some k.toNat)) else none
   | .list [.str "fetchall"] => some .fetchall
   | .list [.str "arraysize", .int k] => if k ≥ 0 then some (.setArraysize k.toNat) else none
-  | .list [.str "observe"] => some .observe
+  | .list [.str "observe"] => some (.observe .rows)
+  | .list [.str "observe", .str k] => (decodeObs k).map .observe
   | .list [.str "append", r] => some (.append r)
   | _ => none
 
@@ -20,6 +28,24 @@ def encodeOut : Out PyVal → PyVal
   | .many rs => .list [.str "many", .list rs]
   | .unit => .list [.str "unit"]
   | .err => .list [.str "err"]
+  | .outside => .list [.str "outside"]
+
+def decodeTables : List PyVal → Option (List (List PyVal))
+  | [] => some []
+  | .list t :: ts => (decodeTables ts).map (t :: ·)
+  | _ => none
+
+/-- `["eager", rows, dicts, schemaRel]` or `["lazy", tables, maxSize | None, schemaRel]` -/
+def decodeFrame (d : Nat) : PyVal → Option (Frame PyVal × List PyVal)
+  | .list [.str "eager", .list rows, .bool dicts, .bool rel] => some (Impl.initEager d rows dicts rel, rows)
+  | .list [.str "lazy", .list tables, .none, .bool rel] => do
+    let ts ← decodeTables tables
+    pure (Impl.initLazy d ts none rel, chunkRows ts none)
+  | .list [.str "lazy", .list tables, .int m, .bool rel] => do
+    if m < 0 then none
+    let ts ← decodeTables tables
+    pure (Impl.initLazy d ts (some m.toNat) rel, chunkRows ts (some m.toNat))
+  | _ => none
 
 def handle (op : String) (args : List PyVal) : Option (List PyVal) :=
   match op, args with
@@ -28,6 +54,16 @@ def handle (op : String) (args : List PyVal) : Option (List PyVal) :=
     let ops ← ops.mapM decodeOp
     let (s, outs) := run (init d.toNat rows) ops
     pure [.list (outs.map encodeOut), .int s.pos, .bool s.valid, .list s.rows]
+  | "frame", [.int d, frame, .list ops] => do
+    if d < 0 then none
+    let ops ← ops.mapM decodeOp
+    let (f0, rows) ← decodeFrame d.toNat frame
+    let (f, outs) := Impl.run f0 ops
+    let (s, souts) := run (init d.toNat rows) ops
+    let store := match Impl.store f with
+      | some rs => PyVal.list rs
+      | none => PyVal.none
+    pure [.list (outs.map encodeOut), store, .bool f.live, .list (souts.map encodeOut), .list s.rows, .list rows]
   | _, _ => none
 
 end Drv.C04
